@@ -372,6 +372,16 @@ func (w *World) storeOp(op J) (J, error) {
 			concrete = w.names.wallet(id)
 		}
 		return res(s.CheckAndSaveNonce(concrete, w.clock.nonceReal(num(op, "v"))), nil), nil
+	case "CreditLoop":
+		// n credits of amt to one wallet, one after the other (inside bursts: a steady stream of writers on the record)
+		acct := store.Account(w.names.wallet(str(op, "acct")))
+		amt := w.money.real(num(op, "amt"))
+		for i := int64(0); i < num(op, "n"); i++ {
+			if err := s.AddAccountBalance(acct, amt); err != nil {
+				return res(err, nil), nil
+			}
+		}
+		return res(nil, nil), nil
 	case "NonceFill":
 		// n other identities (node-id sized names, outside the model's name space) send a request each, their clocks
 		// `ahead` seconds fast: the nonces of one identity never affect another identity
